@@ -36,6 +36,16 @@ public:
         limits.pop_back();
     }
 
+    // Remove the newest elements until `newSize` are left (they must belong to the innermost scope)
+    template<typename TFun>
+    void truncate(std::size_t newSize, TFun callback) {
+        assert(limits.empty() or newSize >= limits.back());
+        while (elements.size() > newSize) {
+            callback(elements.back());
+            elements.pop_back();
+        }
+    }
+
     [[nodiscard]] bool empty() const { return elements.empty(); }
     [[nodiscard]] std::size_t size() const { return elements.size(); }
 
